@@ -1,4 +1,339 @@
+"""Whole-simulation stage of C08 and C10: generated configurations are executed by the REAL simulator
+(harness/wholerun.py, worker process with observation-only wrappers) and the clauses of the two
+properties are evaluated on the wrapper trace and the timeseries / summary files the run wrote.
+
+C08: per (day, method, crew): remaining minutes >= 0, crew starts with 60*min(workday, daylight)
+(from the configuration, not from the code), travel + survey minutes + trip home <= that budget,
+crew ids within the method's crew count; a visited site had cube values inside the envelope and
+check_weather's verdict equals the envelope test; an unworkable site is left untouched.
+C10: per day: each method's deployment-cost column = per-site charges of the surveys completed that
+day / unit cost x crews that visited a site / unit cost x planned sites (stationary) + upfront x crews
+on day 0; daily cost = sum of the method columns + repair cost; repair / natural repair columns =
+sums of the booked amounts seen by the wrapper; one booking per repaired leak; a program without
+methods costs nothing; Timeseries Summary total = sum of the daily costs.
+"""
+from __future__ import annotations
+
+import concurrent.futures
+import random
+
+from harness import wholerun as W
+
+
+# ------------------------------------------------------------------------------------------------
+# running configurations
+# ------------------------------------------------------------------------------------------------
+def make_cfgs(ctx, n, flavour):
+    cfgs = []
+    for k in range(n):
+        seed = ctx.rng.randrange(1 << 30)
+        rng = random.Random(seed)
+        ov = {"ndays": rng.choice([120, 200]) if ctx.quick else rng.choice([120, 200, 400])}
+        if flavour == "c08":
+            ov["consider_weather"] = (k % 3 != 2)
+        else:
+            ov["consider_weather"] = (k % 2 == 1)
+        cfg = W.make_config(rng, **ov)
+        names = [p["name"] for p in cfg["programs"]]
+        if "P_fix" not in names and (k % 2 == 0):
+            cfg["programs"] = cfg["programs"] + [{"name": "P_fix", "methods": ["FIX", "OGI_FU2"]}]
+        if flavour == "c10" and k % 2 == 0:
+            # the shape named in the property: a survey that uses up the crew's day to the minute
+            cfg["methods"]["OGI"].update({"survey_time": 420, "max_workday": 8, "t_bw_sites": [30.0],
+                                          "consider_daylight": False})
+        cfg["_verif_seed"] = seed
+        cfgs.append(cfg)
+    return cfgs
+
+
+def run_cfgs(ctx, cfgs):
+    workers = 2 if ctx.quick else 4
+    with concurrent.futures.ThreadPoolExecutor(max_workers=workers) as ex:
+        return list(ex.map(lambda c: W.run_config(c, debug=True, processes=1, trace=True), cfgs))
+
+
+def _f(x):
+    if x is None or x == "":
+        return 0.0
+    return float(x)
+
+
+def expected_budget(cfg, method):
+    m = cfg["methods"][method]
+    w = m.get("max_workday", 24) if m["deployment_type"] != "stationary" else m.get("max_workday", 24)
+    if m.get("consider_daylight", False):
+        dl = cfg.get("daylight")
+        dl = 14.0 if dl is None else dl
+        return 60 * min(w, dl)
+    return 60 * w
+
+
+def expected_select(cost):
+    pd = cost.get("per_day", 0)
+    ps = cost.get("per_site")
+    if pd > 0:
+        return "day", pd
+    if ps is not None and ps > 0:
+        return "site", ps
+    return "day", 0
+
+
+def index_events(events):
+    deploy, surveys, wx, plancost, repairs = {}, {}, {}, {}, {}
+    for e in events:
+        k = e[0]
+        if k == "deploy":
+            deploy[(e[1], e[2])] = e
+        elif k == "survey":
+            surveys.setdefault((e[1], e[2]), []).append(e)
+        elif k == "wx":
+            wx.setdefault((e[1], e[2], e[3]), []).append(e)
+        elif k == "plancost":
+            plancost[(e[1], e[2])] = e[3]
+        elif k == "repaircost":
+            repairs.setdefault(e[1], []).append(e)
+    return deploy, surveys, wx, plancost, repairs
+
+
+# ------------------------------------------------------------------------------------------------
+# C08
+# ------------------------------------------------------------------------------------------------
+def oracle_c08(ctx, cfg, prog, events, violate):
+    deploy, surveys, wx, plancost, repairs = index_events(events)
+    n_visits = 0
+    for (day, method), evs in surveys.items():
+        dep = deploy.get((day, method))
+        budget = expected_budget(cfg, method)
+        m = cfg["methods"][method]
+        n_crews = 1 if m["deployment_type"] == "stationary" else m["crew_count"]
+        per_crew = {}
+        wx_used = {}
+        for e in evs:
+            (_, _, _, site, crew, r0, r1, s_time, travel, p0, p1, complete, in_prog, visited, last, wchk) = e
+            n_visits += 1
+            st = per_crew.setdefault(crew, {"spent": 0, "home": 0, "first": r0})
+            info = {"prog": prog, "day": day, "method": method, "site": site, "event": e, "budget": budget}
+            if r0 < 0 or r1 < 0:
+                violate("C08:wholerun:negative-remaining", "a crew's remaining minutes are negative", info)
+            if not (0 <= crew < n_crews):
+                violate("C08:wholerun:more-crews-than-available", "crew id outside the method's crew count", info)
+            today = p1 - p0
+            st["spent"] += travel + today
+            if complete or today > 0:
+                st["home"] = travel
+            if wchk:
+                lst = wx.get((day, method, site), [])
+                i = wx_used.get(site, 0)
+                w = lst[i] if i < len(lst) else None
+                wx_used[site] = i + 1
+                if w is None or w[5] is None:
+                    ctx.count("wholerun:wx-event-missing")
+                else:
+                    (_, _, _, _, verdict, t, wi, pr, env) = w
+                    inside = env[0] <= t <= env[1] and env[2] <= wi <= env[3] and env[4] <= pr <= env[5]
+                    ctx.count("wholerun:visit-weather-" + ("ok" if inside else "bad"))
+                    ctx.nontrivial.add(("wr-wx", inside, t < env[0] or t > env[1], wi > env[3], pr > env[5]))
+                    info["weather"] = w
+                    if visited and not inside:
+                        violate("C08:wholerun:visited-outside-envelope", "site visited although the weather at its cell is outside the envelope", info)
+                    if verdict != inside:
+                        violate("C08:wholerun:check-weather-verdict", "check_weather's verdict differs from the envelope test on the cube values", info)
+                    if not inside and (p1 != p0 or complete or r1 != r0 or visited):
+                        violate("C08:wholerun:unworkable-not-untouched", "unworkable site: report or crew changed", info)
+            elif not visited:
+                violate("C08:wholerun:not-visited-without-weather", "site not visited although weather is not considered", info)
+        for crew, st in per_crew.items():
+            info = {"prog": prog, "day": day, "method": method, "crew": crew, "budget": budget, "events": evs}
+            if st["first"] != budget:
+                violate("C08:wholerun:budget-not-min-workday-daylight", "crew does not start the day with 60*min(workday, daylight)", info)
+            if st["spent"] + st["home"] > budget:
+                violate("C08:wholerun:crew-minutes-exceed-budget", "travel + survey minutes + trip home of a crew exceed the day budget", info)
+            ctx.nontrivial.add(("wr-crew", method, st["spent"] + st["home"] == budget, len(evs) > 1))
+        if len(per_crew) > n_crews or (dep is not None and dep[10] > n_crews):
+            violate("C08:wholerun:more-crews-than-available", "more crews deployed than the method has",
+                    {"prog": prog, "day": day, "method": method})
+    return n_visits
+
+
 def run_c08(ctx):
-    ctx.note("whole-run stage not yet built")
+    n = ctx.pick(2, 12)
+    cfgs = make_cfgs(ctx, n, "c08")
+    results = run_cfgs(ctx, cfgs)
+    try:
+        for cfg, res in zip(cfgs, results):
+            if res.rc != 0:
+                ctx.note("whole run rc=%s for seed %s (skipped): %s" % (res.rc, cfg["_verif_seed"], res.log[-300:].replace("\n", " | ")))
+                ctx.count("wholerun:run-failed")
+                continue
+            for tr in res.trace:
+                def violate(sig, what, info, cfg=cfg):
+                    ctx.violate(sig, what, {"wholerun": {"prop": "C08", "cfg": cfg, "where": info}})
+                nv = oracle_c08(ctx, cfg, tr["prog"], tr["events"], violate)
+                ctx.evaluations += nv
+            ctx.traces += 1
+            ctx.count("wholerun:configs")
+    finally:
+        for res in results:
+            res.cleanup()
+
+
+def replay_c08(ctx, inp):
+    cfg = inp["wholerun"]["cfg"]
+    res = W.run_config(cfg, debug=True, processes=1, trace=True)
+    try:
+        print("whole run rc", res.rc)
+        for tr in res.trace:
+            oracle_c08(ctx, cfg, tr["prog"], tr["events"],
+                       lambda sig, what, info: ctx.violate(sig, what, {"wholerun": {"prop": "C08", "cfg": cfg, "where": info}}))
+    finally:
+        res.cleanup()
+
+
+# ------------------------------------------------------------------------------------------------
+# C10
+# ------------------------------------------------------------------------------------------------
+COL_COST = "Daily Cost ($)"
+COL_REP = "Daily Repair Cost ($)"
+COL_NAT = "Daily Natural Repair Cost ($)"
+COL_METH = "{method} Deployment Cost ($)"
+
+
+def check_columns():
+    """the column names are the simulator's own constants"""
+    from harness import shim
+
+    shim.install()
+    from constants.output_file_constants import TIMESERIES_COL_ACCESSORS as tca
+
+    return (tca.COST, tca.REP_COST, tca.NAT_REP_COST, tca.METH_DAILY_DEPLOY_COST)
+
+
+def oracle_c10(ctx, cfg, res, prog, sim, events, violate):
+    col_cost, col_rep, col_nat, col_meth = check_columns()
+    deploy, surveys, wx, plancost, repairs = index_events(events)
+    ts = res.timeseries(prog, sim)
+    if ts is None:
+        ctx.note("no timeseries for %s/%s" % (prog, sim))
+        return 0
+    methods = [p for p in cfg["programs"] if p["name"] == prog][0]["methods"]
+    total = 0.0
+    n_eval = 0
+    for d, row in enumerate(ts):
+        cols_sum = 0.0
+        for method in methods:
+            m = cfg["methods"][method]
+            dep = deploy.get((d, method))
+            info = {"prog": prog, "sim": sim, "day": d, "method": method, "deploy": dep, "row": {k: row[k] for k in row if "Cost" in k}}
+            if dep is None:
+                violate("C10:wholerun:method-not-deployed", "no deploy_crews call seen for a method on a simulated day", info)
+                continue
+            ctype, unit = expected_select(m["cost"])
+            if (dep[11], dep[12]) != (ctype, unit):
+                violate("C10:wholerun:wrong-cost-type", "cost type / unit cost not as configured", info)
+            stationary = m["deployment_type"] == "stationary"
+            n_crews = 1 if stationary else m["crew_count"]
+            evs = surveys.get((d, method), [])
+            if ctype == "site":
+                pc = plancost.get((d, method), {})
+                exp = 0.0
+                for e in evs:
+                    if e[11]:   # survey complete
+                        sc = pc.get(e[3], 0.0)
+                        exp += sc if sc != 0 else unit
+                n_done = sum(1 for e in evs if e[11])
+                ctx.nontrivial.add(("wr-site", method, min(n_done, 3), any(e[11] and e[14] for e in evs),
+                                    any((not e[13]) for e in evs), any(e[12] and not e[11] for e in evs)))
+                if any(e[11] and e[14] for e in evs):
+                    ctx.count("wholerun:completed-survey-exhausts-crew")
+                if dep[4] != exp:
+                    exhausted = any(e[11] and e[14] for e in evs)
+                    sig = "C10:per_site:completed-survey-not-charged:crew-exhausted" if (dep[4] < exp and exhausted) else \
+                        "C10:per_site:charged-without-completion" if dep[4] > exp else "C10:per_site:other"
+                    info["expected"] = exp
+                    violate(sig, "whole run: per-site deployment cost != sum of site costs of the surveys completed that day", info)
+            elif stationary:
+                exp = unit * len(dep[3])
+                ctx.nontrivial.add(("wr-stationary", method, min(len(dep[3]), 3)))
+                if dep[4] != exp:
+                    info["expected"] = exp
+                    violate("C10:per_day:stationary-not-per-planned-site", "whole run: stationary per-day cost != unit cost x planned sites", info)
+            else:
+                crews = {e[4] for e in evs if e[13]}
+                exp = unit * len(crews)
+                ctx.nontrivial.add(("wr-day", method, len(crews)))
+                if dep[4] != exp:
+                    info["expected"] = exp
+                    violate("C10:per_day:not-per-deployed-crew", "whole run: per-day cost != unit cost x crews that visited a site", info)
+            col = _f(row.get(col_meth.format(method=method)))
+            exp_col = dep[4] + (m["cost"].get("upfront", 0) * n_crews if d == 0 else 0)
+            if col != exp_col:
+                info["expected_column"] = exp_col
+                sig = "C10:upfront:not-exactly-once" if (col - dep[4]) != 0 and d != 0 else "C10:row:method-columns"
+                violate(sig, "whole run: method deployment-cost column != deployment cost (+ upfront x crews on day 0)", info)
+            cols_sum += col
+            n_eval += 1
+        rep_ev = sum(e[3] for e in repairs.get(d, []) if e[2] == "program")
+        nat_ev = sum(e[3] for e in repairs.get(d, []) if e[2] == "natural")
+        info = {"prog": prog, "sim": sim, "day": d, "row": {k: row[k] for k in row if "Cost" in k}, "booked": [rep_ev, nat_ev]}
+        if _f(row[col_rep]) != rep_ev or _f(row[col_nat]) != nat_ev:
+            violate("C10:repair:not-once", "whole run: repair cost columns != amounts booked by the repairs of that day", info)
+        if _f(row[col_cost]) != cols_sum + _f(row[col_rep]):
+            violate("C10:row:cost-not-sum", "whole run: daily cost != sum of method deployment columns + repair cost", info)
+        if not methods and (_f(row[col_cost]) != 0 or _f(row[col_rep]) != 0):
+            violate("C10:no-methods:cost-nonzero", "whole run: a program without methods has a non-zero cost", info)
+        total += _f(row[col_cost])
+        n_eval += 1
+    # one booking per program-repaired leak
+    em = res.emissions(prog, sim) or []
+    try:
+        from constants.output_file_constants import EMIS_DATA_COL_ACCESSORS as eca
+
+        n_prog_rep = sum(1 for r in em if r.get(eca.STATUS) == "repaired" and r.get(eca.TAGGED_BY) not in ("natural", "", None, "N/A"))
+        n_booked = sum(1 for evs in repairs.values() for e in evs if e[2] == "program")
+        ctx.nontrivial.add(("wr-repairs", min(n_prog_rep, 5)))
+        if n_prog_rep != n_booked:
+            violate("C10:repair:not-once", "whole run: number of repair-cost bookings != number of leaks repaired by the program",
+                    {"prog": prog, "sim": sim, "repaired_by_program": n_prog_rep, "bookings": n_booked})
+    except ImportError:
+        pass
+    # summary file
+    summ = res.summary("Timeseries Summary") or []
+    for r in summ:
+        if r.get("Program Name") == prog and str(r.get("Simulation")) == str(sim):
+            if abs(_f(r.get("Total Cost ($)")) - total) > 1e-6 * max(1.0, abs(total)):
+                violate("C10:summary:total-cost", "Timeseries Summary total cost != sum of the daily costs",
+                        {"prog": prog, "sim": sim, "summary": r.get("Total Cost ($)"), "sum": total})
+    return n_eval
+
+
 def run_c10(ctx):
-    ctx.note("whole-run stage not yet built")
+    n = ctx.pick(2, 12)
+    cfgs = make_cfgs(ctx, n, "c10")
+    results = run_cfgs(ctx, cfgs)
+    try:
+        for cfg, res in zip(cfgs, results):
+            if res.rc != 0:
+                ctx.note("whole run rc=%s for seed %s (skipped): %s" % (res.rc, cfg["_verif_seed"], res.log[-300:].replace("\n", " | ")))
+                ctx.count("wholerun:run-failed")
+                continue
+            for tr in res.trace:
+                def violate(sig, what, info, cfg=cfg):
+                    ctx.violate(sig, what, {"wholerun": {"prop": "C10", "cfg": cfg, "where": info}})
+                ctx.evaluations += oracle_c10(ctx, cfg, res, tr["prog"], tr["sim"], tr["events"], violate)
+            ctx.traces += 1
+            ctx.count("wholerun:configs")
+    finally:
+        for res in results:
+            res.cleanup()
+
+
+def replay_c10(ctx, inp):
+    cfg = inp["wholerun"]["cfg"]
+    res = W.run_config(cfg, debug=True, processes=1, trace=True)
+    try:
+        print("whole run rc", res.rc)
+        for tr in res.trace:
+            oracle_c10(ctx, cfg, res, tr["prog"], tr["sim"], tr["events"],
+                       lambda sig, what, info: ctx.violate(sig, what, {"wholerun": {"prop": "C10", "cfg": cfg, "where": info}}))
+    finally:
+        res.cleanup()
